@@ -576,7 +576,7 @@ class Interp:
         return to_sort(a, target), to_sort(b, target), target
 
     def binop(self, op, a, b, node=None):
-        if not is_z3(a) and not is_z3(b):
+        if not is_z3(a) and not is_z3(b) and not getattr(a, "__cvec__", False) and not getattr(b, "__cvec__", False):
             if isinstance(a, (int, float, str, list, tuple, dict, set, bool)) and isinstance(
                 b, (int, float, str, list, tuple, dict, set, bool)
             ):
@@ -669,6 +669,8 @@ class Interp:
         return self.uf("pow", to_sort(x, z3.RealSort()), to_sort(y, z3.RealSort()), sort=z3.RealSort())
 
     def ctx_zero_division(self, y):
+        if getattr(self, "array_division", 0):
+            return
         nz = y != 0
         s = z3.simplify(nz)
         if z3.is_true(s):
